@@ -10,6 +10,50 @@ COMMON_NOTE = ("Trusted: Coq 8.16.1 kernel (vm_compute used, no native_compute);
                "driver + Rust harness. ")
 
 CLAIMS = {
+ "C01": dict(
+   text="c01_roundtrip: for EVERY message satisfying the boolean well-formedness predicate that spells out the property's quantifier (Spec/WellFormed.v) and EVERY trailing byte string, dlt_message (message_bytes m ++ rest) = POk (Item m) rest - the universally quantified `rest` is both 'remainder is exactly what followed' and 'nothing behind the message influences the result'; c01_roundtrip_filter (any filter: FilteredOut payload_length or the same Item), c01_no_overflow (no debug-build overflow of the writer), c01_argument (each argument kind round-trips and is prefix-stable). Ten kernel-evaluated example messages (every payload kind x byte order) satisfy the hypothesis. Tied to /repo by op 20: as_bytes + suffix + parse on generated well-formed messages, full output compared.",
+   note="Model covers dlt.rs (all as_bytes) and parse.rs (dlt_message and everything below it) with the nom 7.1.3 streaming combinators. The generator's messages are re-checked against the model's wf_message and the count of accepted ones is compared (impl-side and model-side predicates must agree).",
+   technique="Coq proof (prefix-stable parser combinators closed under sequencing; field lemma library; 608-case type-info sweep) + correspondence check"),
+ "C02": dict(
+   text="c02_encode: message_bytes m = spec_encode m for every well-formed m; c02_decode: for EVERY byte string and storage mode the parser model's verdict (message + consumed length / incomplete / reject) equals spec_decode, the verdict of an independently written, total, cut-then-decode reference codec of the AUTOSAR layout (Spec/Layout.v: own bit-field code via testbit/div/mod, no nom, no streaming; dialect rules documented rule by rule); c02_type_info and c02_argument are the per-level agreements. Proved at full strength (no partial fallback). Tied to /repo twice: ops 60/61 run the EXTRACTED REFERENCE CODEC against the real dlt_message / as_bytes (a disagreement is reported as a violation of the property with the input as replay), and the model itself is compared with /repo by the other properties' ops.",
+   note="The reference codec is trusted as the external description of the format; it was written from the property text and the AUTOSAR field layout, and its order-of-checks rules for short inputs (incomplete vs reject) were derived by case analysis and are proved, not assumed.",
+   technique="Coq proof (refinement of a streaming parser model to a cut-then-decode spec; 2^18 type-info sweep; 256-value HTYP/MSIN sweeps) + differential run of the extracted spec against the implementation"),
+ "C05": dict(
+   text="c05_message: for every well-formed message, every filter and every k below the length, dlt_message on the first k bytes is PIncomplete n with hint_ok n (missing) (None, or 1 <= n <= bytes missing); c05_consume likewise for dlt_consume_msg on every non-empty proper prefix of storage-header messages; c05_consume_empty; c05_message_prefix; c05_storage_short. Tied to /repo by op 23: every cut position of generated messages, class and hint compared and checked by the oracle.",
+   note="Uses the same prefix-stability library as C01 (each header parser returns Incomplete with a safe hint on every proper prefix of its own bytes); behind the headers the verdict comes from validated_payload_length whose hint is the exact shortfall.",
+   technique="Coq proof (prefix-stability closed under sequencing) + exhaustive-cut correspondence check"),
+ "C06": dict(
+   text="c06_search / c06_search_complete / c06_search_some_iff / c06_search_none_iff: forward_to_next_storage_header returns exactly the offset of the FIRST occurrence of DLT\\x01 with the input from there on, and None iff the pattern does not occur; c06_junk: pattern-free junk in front of a storage-header message (>= 16 bytes) does not change the result of dlt_message, for every filter (the pattern is unbordered, so no occurrence straddles the boundary); c06_stream / c06_stream_messages: junk0 ++ m1 ++ junk1 ++ ... is recovered completely and in order by repeated parsing; c06_trailing_junk. Tied to /repo by ops 12/24/29 on pattern-dense strings and junk-separated streams.",
+   note="memchr::memmem::Finder::find is modelled as naive first-occurrence search; the SIMD implementation is exercised by the correspondence (partial patterns at the junk tail, near misses).",
+   technique="Coq proof (first-occurrence search, unbordered-pattern lemma, induction over the stream) + correspondence check"),
+ "C09": dict(
+   text="c09_filter: whenever the unfiltered parse returns Item m with remainder rest, the parse with process_filter cfg returns FilteredOut (payload length) rest if spec_dropped cfg m and Item m rest otherwise, where spec_dropped is written from the property sentence (Spec/FilterSpec.v: valid level less severe than a valid minimum, ids not in the raw lists, ECU id present and not allowed; without extended header: counts above the number of DISTINCT ids); c09_filter_only_drops, c09_filter_processed, c09_stream (message for message over repeated parsing), c09_levels (minimum outside 1..6 = no level filtering), c09_conversions (both conversions: membership and distinct count preserved by dedup), c09_invalid_minimum (hand-built Invalid minimum). Composes with c01_roundtrip_filter for serialised messages. Tied to /repo by ops 26/27.",
+   note="Finding recorded in Properties/C09.v: a dropped message's payload is skipped unparsed, so 'filtered = unfiltered' holds where the unfiltered parse succeeds - exactly the property's wording ('message for message').",
+   technique="Coq proof (refinement of filtered_out to an independent drop rule) + correspondence check with an independent Rust oracle"),
+ "C11": dict(
+   text="c11_load / c11_load_elements: for every abstract FIBEX model and every layout (any permutation of the top-level elements, any split over files) the loader model applied to the canonical XML event rendering returns exactly denote(layout) - PDUs/signals ordered stably by sequence number, signal types from the S_* names or signal -> coding -> base type, unknown signal refs skipped, first definition of a duplicated frame/PDU id wins, last of a signal/coding id; c11_order_irrelevant / c11_denote_order (with unique ids every layout gives the same model), c11_missing_pdu / c11_denote_none (dangling PDU ref <=> no model), c11_lookup / c11_lookup_sound / c11_lookup_key_injective (extract_metadata), c11_sort_stable / c11_sort_unique, c11_decimal_roundtrip. Tied to /repo by ops 50/51: generated models rendered to XML, loaded by the real gather_fibex_data / extract_metadata, compared with the model run on the quick-xml event dump of the same files, with Coq's denote, and with an independent Rust denote.",
+   note="PARTIAL as named in DESIGN section 6/C11: (i) quick-xml (the tokenizer) is not modelled - the model starts at the event list the same quick-xml yields for the same text, re-derived on every case; (ii) that the canonical rendering's events are what quick-xml produces for the harness's XML is checked on every style-0 case (model-side equality with Spec.files_of), not proved; (iii) tool-style documents (wrappers, white space, ECU blocks) are outside the canonical shape of c11_load and are covered by the correspondence and oracle only.",
+   technique="Coq proof (loader state machine over XML events refines a declarative meaning; permutation/sorting lemmas) + correspondence check through the real XML tokenizer"),
+ "C12": dict(
+   text="c12_terminates: for EVERY list of files and every event list, the loader model with fuel 2 + number of events never runs out of fuel (each loop iteration consumes an event or ends) - so loading ends with a model or a refusal; c12_no_panic: no panic branch (attribute-key index/slice arithmetic is explicit in the model) is ever taken; c12_refuted_pinned records that the pre-repair read_pdu/read_frame loops diverge on [Start PDU]. Tied to /repo by op 50 on truncations at every offset, deletions, corruptions, missing and empty files, each load in its own thread with a 4 s limit.",
+   note="PARTIAL as named in DESIGN section 6/C12: 'promptly' is wall-clock (theorem: linear fuel bound; run: 4 s limit); termination and panic-freedom inside quick-xml for corrupted bytes are exercised, not proved; file-system faults beyond missing/empty are not modelled.",
+   technique="Coq proof (fuel bound by a consumed-events measure; explicit panic branches unreachable) + robustness correspondence run under a time limit"),
+ "C13": dict(
+   text="c13_refines: construct_arguments = spec_construct (an independent fold taking the next field per type with firstn/skipn and get_uint/get_sint) for all byte orders, type lists and payloads; c13_characterised (success <=> the payload starts with the packed encoding of the arguments, one per type, plain); c13_shape, c13_trailing, c13_consumed, c13_short (every shorter prefix is refused), c13_utf8, c13_fixed_point_refused (fixed-point signal types always yield Err - dead code in the crate, stated outright), c13_no_panic (a second transcription with every slice range / index / usize addition checked never panics), c13_offsets. Tied to /repo by op 13.",
+   note="Model covers parse.rs construct_arguments. 8-bit integers are read big-endian regardless of the byte order in model and code; the spec uses the stated order and the proof shows they agree.",
+   technique="Coq proof (refinement to an independent decoder; checked re-transcription for panic freedom) + correspondence check"),
+ "C15": dict(
+   text="c15_arg_len (Argument::len = serialised length for every well-formed argument and both byte orders), c15_new (for every configuration in wf_config - proved to be EXACTLY the configurations from which Message::new builds a well-formed message, c15_config_exact - the payload length field equals the serialised payload, byte_len equals the serialisation without storage header, verbose flag and NOAR are what the payload kind requires, and the message is well-formed), c15_new_roundtrip (it parses back to itself, by C01), c15_storage / c15_storage_wf / c15_storage_roundtrip (add_storage_header prepends exactly 16 bytes with the given time and the header ECU id or 'ECU'), c15_valid / c15_wf_valid. Tied to /repo by ops 14/15.",
+   note="add_storage_header(None) reads the system clock and is not modelled. The excluded configurations (verbose/control/network-trace payload without extended-header config, payload kind contradicting the message type, > 255 arguments, total > 65535) are each shown necessary by a kernel-evaluated example.",
+   technique="Coq proof (length calculus over the writer; composition with the C01 round trip) + correspondence check"),
+ "C16": dict(
+   text="c16_parsed_wf: EVERY message returned by dlt_message (any bytes, filter, storage mode) whose re-serialisation has the length its header declares satisfies the well-formedness predicate of C01 (ids/names/strings clean, values match type info, enum codes canonical - by 256-value sweeps -, NOAR/verbose consistent; for network trace the length hypothesis is what excludes dropped non-raw arguments); c16_stable: hence it parses back to the identical message with nothing left over; c16_bytes_stable: and re-serialises to the same bytes. An example shows the length hypothesis cannot be dropped. Tied to /repo by op 28: parse -> serialise -> parse -> serialise on dialect, mutated and malformed inputs, token for token.",
+   note="Composition of c16_parsed_wf with c01_roundtrip; floats are bit patterns throughout.",
+   technique="Coq proof (parser-output invariant + round trip) + correspondence check"),
+ "C18": dict(
+   text="c18_no_panic (to_real_value never panics), c18_none / c18_some / c18_applicable (Some exactly for fixed-point kind + fixed-point data + an 8..64-bit integer value), c18_value (whenever the double-precision product, truncated toward zero - the UNSATURATED truncation t - is non-negative and 0 <= t + offset < 2^63, the result is exactly t + offset), c18_formula (unconditional closed form), c18_cast / c18_trunc / c18_int_exact / c18_f32_exact (meaning of the float terms), c18_pinned_refuted / c18_pinned_panic_neg (the pre-repair checked addition panicked exactly when offset < 0 and the intended result is >= 0). Floats via the standard library's SpecFloat (pure Gallina, no primitive floats, no axioms). Tied to /repo by op 42 on every kind x value variant x special and random quantizations x offsets; the float model is thereby checked against rustc's arithmetic.",
+   note="c18_value needs offset >= -2^63, which every i32/i64 offset satisfies (c18_offset_range). Correct rounding of SFmul/binary_normalize on inexact products is the standard library's specification, not re-proved; it is compared with the hardware on every case.",
+   technique="Coq proof over SpecFloat (integer part by lia; float terms as uninterpreted-but-computable SpecFloat expressions) + correspondence check against hardware IEEE-754"),
  "C03": dict(
    text="c03_parsers_total (dlt_message with any filter and storage mode, dlt_consume_msg, skip_storage_header and dlt_zero_terminated_string never take a panic branch of the model, in which every checked subtraction and slice range of parse.rs is explicit), c03_results_usable (every returned message re-serialises without any of the `len as u16 + 1` / u16 header-sum overflows and each argument passes Argument::valid), c03_result_bounds (payload <= 65531, every name/unit/string/raw/slice <= 65515 bytes - the bound that makes the overflow sites unreachable, shown tight by an example), c03_parsed_arg_bounds and c03_construct_arguments_usable proved for ALL byte strings; tied to /repo by running the slice entry points under catch_unwind in a build with overflow checks on hostile inputs (mutated, truncated, length-corrupted, > 64 KiB) and using every returned message (as_bytes, byte_len, len, valid).",
    note="forward_to_next_storage_header and construct_arguments return Option in the model: their slice bounds are guarded by explicit length checks that are part of the modelled text. Allocation failure and the trace!/dbg_parsed sites (only evaluated with a trace-level logger) are not modelled. Observation recorded in Properties/C03.v: the public construct_arguments called directly with > 64 KiB of data can return a 65535-byte string whose as_bytes overflows; unreachable from parsed messages.",
@@ -75,7 +119,7 @@ def main():
              "kind_free_text": "differential run of the extracted model (OCaml) and the implementation (Rust harness with a path dependency on /repo) on the same seeded cases, plus direct oracles that search for a failing input; ./check <ID>"}],
         "checks": checks,
         "notes": "See DESIGN.md. One entry point: ./check <ID> [--tier quick|thorough] [--seed N] [--replay file]. KNOWN_FINDINGS.txt lists repaired defects (fixed:) and recorded findings (known:).",
-        "not_applicable": [{"property_id": p, "reason": "machinery for this property is still under construction in this session; not claimed yet"} for p in ALL if p not in CLAIMS],
+        "not_applicable": [{"property_id": p, "reason": "not claimed yet"} for p in ALL if p not in CLAIMS],
     }
     json.dump(m, open(os.path.join(ROOT, "MANIFEST.json"), "w"), indent=1)
 
